@@ -20,6 +20,8 @@ C04-F2 C04 e90a80e
 C04-F3 C04 8902ad6
 C06-F1 C06 ee1bd9e
 C07-F1 C07 0fddc27 b736e3e
+C07-F3 C07 cbe28ca
+C07-F4 C07 385f325 0ba294b
 C14-F1 C14 df8caca
 C14-F2 C14 f8c3f4a
 C12-F1 C12 2cd1e3c
